@@ -640,7 +640,11 @@ func (c *Ctx) ruleSitesTONL() {
 						direct = true
 						return true, ""
 					}
+					flagged := c.okFlagGuards(si, a[1])
 					if c.rootsAre(a[1], func(r ssa.Value) bool {
+						if cs, ok := r.(*ssa.Const); ok && cs.Value != nil && cs.Value.ExactString() == `""` && flagged {
+							return true // the "not a package" answer of a (value, ok) helper; ok guards this use
+						}
 						pc := P.CallTo(r, "(*go/types.Package).Path")
 						return pc != nil && P.RootsAllDeep(pc.Call.Args[0], func(q ssa.Value) bool { return P.CallTo(q, "(*go/types.PkgName).Imported") != nil })
 					}) {
@@ -752,19 +756,27 @@ func (c *Ctx) ruleSitesTONL() {
 // resolves to - Uses[ident].(*types.Func).Pkg().Path() (own package or a dot-imported one); pass.Pkg.Path() is
 // accepted as an alternative (hand-built passes without type information), the empty string only as the value of a
 // helper's "not a package-level function" answer whose ok result guards the use.
-func (c *Ctx) declPkgOfCalledIdent(si *siteInfo, v ssa.Value) bool {
-	P := c.P
-	sawObj := false
-	okFlagGuards := false
-	if ex, ok := v.(*ssa.Extract); ok {
-		for _, l := range si.All {
-			if l.Kind == "cond" && l.Pos && l.Val != nil {
-				if e2, ok := l.Val.(*ssa.Extract); ok && e2.Tuple == ex.Tuple && e2.Index != ex.Index {
-					okFlagGuards = true
-				}
+// okFlagGuards: v is one result of a (value, ok) helper call and the bool result of the same call is a positive
+// guard of the site: the helper's zero-value answer cannot reach this use.
+func (c *Ctx) okFlagGuards(si *siteInfo, v ssa.Value) bool {
+	ex, ok := v.(*ssa.Extract)
+	if !ok {
+		return false
+	}
+	for _, l := range si.All {
+		if l.Kind == "cond" && l.Pos && l.Val != nil {
+			if e2, ok := l.Val.(*ssa.Extract); ok && e2.Tuple == ex.Tuple && e2.Index != ex.Index {
+				return true
 			}
 		}
 	}
+	return false
+}
+
+func (c *Ctx) declPkgOfCalledIdent(si *siteInfo, v ssa.Value) bool {
+	P := c.P
+	sawObj := false
+	okFlagGuards := c.okFlagGuards(si, v)
 	all := P.RootsAllDeep(v, func(r ssa.Value) bool {
 		if cs, ok := r.(*ssa.Const); ok && cs.Value != nil && cs.Value.ExactString() == `""` {
 			return okFlagGuards
